@@ -444,4 +444,54 @@ theorem order_irrelevant (u : List Name) (ls ls' : List Line) (h : ls.Perm ls') 
   funext n
   exact keep_perm h n
 
+
+/-- On argument lists: if two orders of the same arguments are both accepted and produce the same
+parameter dictionary (as a map), then they produce permuted restriction lines for the tests and for
+every vm, and select exactly the same tests.
+*Partial*: acceptance of one order is not derived from acceptance of the other, and equality of the
+dictionaries is a hypothesis — both fail for `nets=` against `only_nets=` (finding F6) and the
+dictionary is last-wins for a repeated key; for lists without such pairs the two hypotheses are checked
+implementation against implementation by the harness (`equiv.order`). -/
+theorem order_irrelevant_args_partial (av : Avail) (args args' : List Str) (c c' : Config)
+    (hperm : args.Perm args')
+    (h : paramsFromCmd av args = .ok c) (h' : paramsFromCmd av args' = .ok c')
+    (hpd : ∀ k, dictGet c.paramDict k = dictGet c'.paramDict k) :
+    c.testsLines.Perm c'.testsLines ∧
+    (∀ names names', selectedTests av c = .ok names → selectedTests av c' = .ok names' → names = names') ∧
+    (c.availableVms.map (·.1) = c'.availableVms.map (·.1)) ∧
+    (∀ vm l l', (vm, l) ∈ c.availableVms → (vm, l') ∈ c'.availableVms → av.vms.Nodup → l.Perm l') := by
+  have t1 := default_iff_no_primary av args c h
+  have t2 := default_iff_no_primary av args' c' h'
+  have hany : args.any (primaryArg av) = args'.any (primaryArg av) := hperm.any_eq
+  have hlines : c.testsLines.Perm c'.testsLines := by
+    rw [t1, t2, hany, testsDefault_congr hpd]
+    exact (typedTests_perm hperm).append_right _
+  have v1 := vm_restr_lines av args c h
+  have v2 := vm_restr_lines av args' c' h'
+  refine ⟨hlines, ?_, ?_, ?_⟩
+  · intro names names' hn hn'
+    unfold selectedTests at hn hn'
+    cases hp : parseLines c.testsLines with
+    | error e => simp [hp] at hn
+    | ok ls =>
+      obtain ⟨ls', e', p'⟩ := parseLines_perm hlines hp
+      simp only [hp] at hn
+      simp only [e'] at hn'
+      cases hn; cases hn'
+      exact order_irrelevant _ _ _ p'
+  · rw [v1, v2]; simp
+  · intro vm l l' hm hm' hnd
+    rw [v1] at hm
+    rw [v2] at hm'
+    simp only [List.mem_map, Prod.mk.injEq] at hm hm'
+    obtain ⟨x, _, rfl, rfl⟩ := hm
+    obtain ⟨y, _, rfl, rfl⟩ := hm'
+    rw [vmTyped_perm hperm, vmDefaultLines_congr hpd]
+    exact (typedVm_perm hperm).append_right _
+
+example : (paramsFromCmd av0 (args0 ["only=tutorial1", "aaa=b", "only_vm1=Fedora", "only=minimal"])).toOption.map
+      (fun c => (selectedTests av0 c).toOption)
+    = (paramsFromCmd av0 (args0 ["only=minimal", "only_vm1=Fedora", "only=tutorial1", "aaa=b"])).toOption.map
+      (fun c => (selectedTests av0 c).toOption) := by decide
+
 end I2N.Props.C11
